@@ -292,7 +292,7 @@ def sites():
                       "times.cc:%d" % _line_of("times.cc", r"std::strcpy\(buf, " + var + r"\)")))
     # times.cc temporal_io_t::format: strftime(buf, 127, ...) into buf[128]
     t = _text("times.cc")
-    m = re.search(r"char buf\[(\d+)\];\s*std::strftime\(buf, (\d+), fmt_str\.c_str\(\), &data\);", t)
+    m = re.search(r"char buf\[(\d+)\];\s*(?:std::size_t len = )?std::strftime\(buf, (\d+), fmt_str\.c_str\(\), &data\);\s*return (?:buf|std::string\(buf, len\));", t)
     need(m, "times.cc:temporal_io_t::format: strftime shape not found")
     S.append(site("times.cc:temporal_io_t::format:buf", ".boundedCopy", int(m.group(1)), 0, int(m.group(2)) - 1, 0, 1,
                   "times.cc:%d" % _line_of("times.cc", r"std::strftime\(buf,")))
